@@ -261,6 +261,8 @@ def run(c):
     builds = e2e.build_many(c.seed, range(n), lambda i: ["-errors"] if i % 3 == 1 else [], work)
     # the solo table (one attribute per method: every type x presence x validation x location, a format AND a pattern on one string)
     builds += e2e.build_many(c.seed, range(4 if c.tier == "quick" else 12), lambda i: ["-solo-design"], work)
+    # two services whose only method has the same name and a different body (the body types want one name in the documents)
+    builds += e2e.build_many(c.seed, range(2), lambda i: ["-twin-design"], work)
     # alias types with validations, and validations given in the HTTP mapping on top of them
     builds += e2e.build_many(c.seed, range(2 if c.tier == "quick" else 10), lambda i: ["-alias-design"], work)
     for b in builds:
